@@ -292,6 +292,57 @@ class ReorgDriver(IndexDriver):
             sim.step_hooks.remove(hook)
             sim.fast_seams = True
 
+    def op_differential(self, op):
+        """C03 literally: every observable equals what a server that only ever saw the final chain
+        reports.  The server under test is snapshotted, then a fresh simulated server (no faults, no stalls,
+        no cache-pressure flushes) indexes the final chain from scratch and is snapshotted too."""
+        from sim.world import World
+        from sim.kernel import Chooser
+        from sim.chaingen import ALL_HASHX
+        w = self.w
+        if w.server is None or not w.caught_up():
+            return
+        ref = RefIndex(w.daemon.chain(), w.k['activation'])
+        pool = list(dict.fromkeys(ALL_HASHX + list(ref.history)))
+        pre = w.sim.preempt
+        w.sim.preempt = False
+        try:
+            st, s1 = w.call(auditmod.snapshot(w.server.db, pool), timeout=3000.0)
+        finally:
+            w.sim.preempt = pre
+        if st != 'ok':
+            self.violate('C03', 'differential.snapshot_failed', f'{st} {s1!r}')
+            return
+        tip = w.daemon.tip
+        knobs = dict(w.k, stall_p=0.0, line_p=0.0, loop_seam_p=0.0, fault_rate=0.0, preempt=False,
+                     daemon_latency=(0.0, 0.001), stall_boost=None)
+        w.finish()
+        w2 = World(Chooser(w.sim.ch.seed + 1 if isinstance(w.sim.ch.seed, int) else 1), knobs)
+        w2.tree = w.tree
+        w2.daemon.tree = w.tree
+        w2.daemon.set_tip(tip)
+        try:
+            w2.start()
+            if w2.run(w2.caught_up, 3000.0) != 'pred':
+                self.violate('C03', 'differential.fresh_server_stuck', 'the fresh server did not index the final '
+                             f'chain: {w2.why_not_caught_up()} {w2.server_exits[-2:]}')
+                return
+            st, s2 = w2.call(auditmod.snapshot(w2.server.db, pool), timeout=3000.0)
+            if st != 'ok':
+                self.violate('C03', 'differential.snapshot_failed', f'fresh: {st} {s2!r}')
+                return
+        finally:
+            w2.finish()
+        self.probe('c03.differentials')
+        for key in s1:
+            if s1[key] != s2[key]:
+                detail = ''
+                if isinstance(s1[key], dict):
+                    bad = [k for k in s1[key] if s1[key][k] != s2[key].get(k)]
+                    detail = f' for {bad[0].hex() if bad and isinstance(bad[0], bytes) else bad[:1]}'
+                self.violate('C03', 'differential.' + key, f'observable "{key}" differs{detail} between the server '
+                             'that went through the history and a server that only ever saw the final chain')
+
     def branch_for_tip(self, tip, height):
         if height < 0:
             return []
@@ -708,6 +759,8 @@ class ReorgFamily(Family):
                 plan.append(dict(op='wait', dt=round(rng.uniform(0.1, 20.0), 2)))
             plan.append(dict(op='mine', n=1, ntx=[2], seed=rng.getrandbits(32)))
             plan.append(dict(op='sync'))
+        if rng.random() < (0.35 if tier == 'thorough' else 0.12):
+            plan.append(dict(op='differential'))
         return dict(family='reorg', knobs=k, plan=plan)
 
 
